@@ -78,7 +78,10 @@ func suite(length int) hlib.Suite {
 						return u
 					}
 					k := 0
-					fn := api.WithJitter(func(time.Time) int { v := sq.f(k); return v }, j)
+					// the un-jittered rate is a stateful function (as the gaussian one is): its n-th
+					// evaluation yields the n-th value, whenever it is made
+					evals := 0
+					fn := api.WithJitter(func(time.Time) int { v := sq.f(evals); evals++; return v }, j)
 					input := fmt.Sprintf("jitter=%v rates=%s random-script=%d (base %d digits, u in %v)", j, sq.name, code, len(uAlpha), uAlpha)
 					r.SampleCase(input)
 					balance := 0.0
@@ -106,6 +109,9 @@ func suite(length int) hlib.Suite {
 						if d := math.Abs(float64(sumOut - sumRate)); d > bound+1e-6 {
 							r.Fail("C13/running-total", "outside-fixed-bound", fmt.Sprintf("after tick %d: applied %d, configured %d, fixed bound %.3f", k, sumOut, sumRate, bound), input)
 						}
+					}
+					if evals != length {
+						r.Fail("C13/underlying-rate", "not-once-per-tick", fmt.Sprintf("the un-jittered rate was evaluated %d times in %d ticks", evals, length), input)
 					}
 					if j == 0 && draws != 0 {
 						r.Fail("C13/zero-jitter-identity", "draws", "zero jitter still draws random numbers", input)
